@@ -255,3 +255,35 @@ Fixpoint frames (fuel : nat) (s : list Z) : list (list Z) * fend :=
   end.
 
 Definition read_frames (s : list Z) : list (list Z) * fend := frames (S (length s)) s.
+
+(* ---------------------------------------------------------------- WebSocket framing
+   WSConn.GetNextMessage (pomelonet/server/acceptor/ws_acceptor.go): one websocket message
+   must be exactly one packet - a header and as many body bytes as it announces.  The
+   websocket layer delivers whole messages, so the result depends only on the list of
+   messages the peer sent before closing. *)
+Inductive wsres :=
+| WOk                    (* the message is handed up unchanged *)
+| WShort                 (* constants.ErrReceivedMsgSmallerThanExpected *)
+| WBig                   (* constants.ErrReceivedMsgBiggerThanExpected *)
+| WBad (e : err).        (* too short for a header, or ParseHeader's error *)
+
+Definition ws_next (m : list Z) : wsres :=
+  if len m <? HeadLength then WBad EPktHeader else
+  match parse_header (firstn (Z.to_nat HeadLength) m) with
+  | Ok (size, _) =>
+      let dl := len m - HeadLength in
+      if dl <? size then WShort else if dl >? size then WBig else WOk
+  | Err e => WBad e
+  | Panic => WBad EFuel   (* proved unreachable *)
+  end.
+
+(* messages handed up until the first refusal ([None]: the peer closed after the last one) *)
+Fixpoint ws_frames (ms : list (list Z)) : list (list Z) * option wsres :=
+  match ms with
+  | [] => ([], None)
+  | m :: r =>
+      match ws_next m with
+      | WOk => let '(out, e) := ws_frames r in (m :: out, e)
+      | w => ([], Some w)
+      end
+  end.
